@@ -16,6 +16,8 @@ import Pysmi.Model.LR
 import Pysmi.Model.PyStr
 import Pysmi.Model.Imports
 import Pysmi.Model.Pysnmp
+import Pysmi.Model.Cli
+import Pysmi.Generated.Cli
 import Pysmi.Generated.Pysnmp
 import Pysmi.Generated.Smiv1
 /-!
@@ -633,6 +635,40 @@ def opPysnmp (j : Json) : Except String Json := do
                      ("expanded", .arr ((expandImports Pysmi.Generated.Pysnmp.smiObjects syms).map Json.str).toArray)]
 end Ps
 
+/-! ### op: cli (C20) -/
+namespace Cl
+open Pysmi.Cli
+
+def statusOf (s : String) : Except String Pysmi.Compile.Status :=
+  match s with
+  | "compiled" => pure .compiled | "untouched" => pure .untouched | "failed" => pure .failed
+  | "unprocessed" => pure .unprocessed | "missing" => pure .missing | "borrowed" => pure .borrowed
+  | _ => throw s!"unknown status {s}"
+
+def opCli (j : Json) : Except String Json := do
+  let what ← (← j.getObjVal? "what").getStr?
+  if what == "mibdump" then
+    let p ← getList (fun e => do
+      let a ← e.getArr?
+      return ((← (a[0]?.getD Json.null).getStr?), ← statusOf (← (a[1]?.getD Json.null).getStr?))) (← j.getObjVal? "statuses")
+    let ex : ExitCodes := ⟨Pysmi.Generated.Cli.EX_OK, Pysmi.Generated.Cli.EX_USAGE, Pysmi.Generated.Cli.EX_SOFTWARE,
+      Pysmi.Generated.Cli.EX_MIB_MISSING, Pysmi.Generated.Cli.EX_MIB_FAILED⟩
+    let cat (s : Pysmi.Compile.Status) : Json := .arr ((category p s).map Json.str).toArray
+    return Json.mkObj [("exit", mibdumpExit ex p), ("compiled", cat .compiled), ("borrowed", cat .borrowed), ("untouched", cat .untouched),
+      ("missing", cat .missing), ("unprocessed", cat .unprocessed), ("failed", cat .failed)]
+  else
+    let rev (x : Json) : Except String Rev := match x with | .null => pure none | _ => do return some (← x.getNat?)
+    let dst ← getList (fun e => do
+      let a ← e.getArr?
+      return ((← (a[0]?.getD Json.null).getStr?), (← rev (a[1]?.getD Json.null)), (← (a[2]?.getD Json.null).getNat?))) (← j.getObjVal? "dst")
+    let srcs ← getList (fun e => do
+      let a ← e.getArr?
+      return ({ name := (← (a[0]?.getD Json.null).getStr?), rev := (← rev (a[1]?.getD Json.null)), file := (← (a[2]?.getD Json.null).getNat?) } : Src)) (← j.getObjVal? "srcs")
+    let r := mibcopy true dst srcs
+    let sorted := r.dst.mergeSort (fun a b => decide (a.1 ≤ b.1))
+    return Json.mkObj [("dst", .arr (sorted.map (fun e => Json.arr #[.str e.1, (match e.2.1 with | some v => (v : Json) | none => .null), e.2.2])).toArray)]
+end Cl
+
 /-! ### ops: tables (load a parser export) / parse -/
 namespace Pr
 open Pysmi.Py Pysmi.LR
@@ -782,6 +818,7 @@ def handle (j : Json) : Except String Json := do
   | "text" => Tx.opText j
   | "imports" => Im.opImports j
   | "pysnmp" => Ps.opPysnmp j
+  | "cli" => Cl.opCli j
   | "put2" => Wr.opPut2 j
   | _ => throw s!"unknown op {op}"
 
